@@ -7,7 +7,7 @@ def draws(s):
     return [s.next_float().hex(), s.next_int(0, 10 ** 6), s.next_float().hex()]
 
 
-def apply(cfg, order, history=False, reuse=False):
+def apply(cfg, order, history=False, reuse=False, late=False):
     from pydsol.core.streams import MersenneTwister, SimpleStreamUpdater, StreamSeedUpdater
     streams = {}
     for name in order:
@@ -23,6 +23,17 @@ def apply(cfg, order, history=False, reuse=False):
         streams[name] = s
     if cfg["updater"] == "simple":
         up = SimpleStreamUpdater()
+    elif late:
+        # the seed table is completed after the updater was built, through the live table the updater hands out:
+        # at update time the configured seed lists are the same as in the base variant
+        keys = list(cfg["table"])
+        up = StreamSeedUpdater({k: list(cfg["table"][k][:1]) for k in keys[:len(keys) // 2]})
+        live = up.get_stream_seeds()
+        for k in keys:
+            if k in live:
+                live[k].extend(cfg["table"][k][1:])
+            else:
+                live[k] = list(cfg["table"][k])
     else:
         up = StreamSeedUpdater({k: list(v) for k, v in cfg["table"].items()})
     out = {}
@@ -56,6 +67,7 @@ def main():
              "reuse": apply(cfg, names, reuse=True), "used": apply(cfg, names, history="used"), "alone": {}}
         for n in names:
             r["alone"][n] = apply(dict(cfg, streams={n: cfg["streams"][n]}), [n]).get(n)
+        r["late"] = apply(cfg, names, late=True) if cfg["updater"] == "table" else r["base"]
         if cfg["updater"] == "table":
             # what the fallback alone would do for every stream (oracle for unlisted streams)
             r["fallback"] = apply(dict(cfg, updater="simple"), names)
